@@ -817,6 +817,30 @@ func init() {
 				}
 			}
 		}
+		// spellings of cookie-samesite the documentation does not list: whatever validation lets through is the attribute the
+		// operator asked for (the universal monitor compares case-insensitively); a rejected configuration is outside the property
+		for _, ss := range []string{"Strict", "LAX", "None", "nOnE"} {
+			e, err := newEnv(c, proxyCfg{CookieSameSite: ss, CookieSecure: true, InjectRequest: defaultInject()})
+			if err != nil {
+				c.count("c18:samesite-spelling-rejected")
+				continue
+			}
+			c.count("c18:samesite-spelling-accepted")
+			b := newBrowser()
+			sr := e.do(reqSpec{Target: "/oauth2/start?rd=/after"})
+			if sr.raw != nil {
+				b.apply(sr.raw)
+			}
+			if cb, _, err := e.idp.authorize(sr.Location, u); err == nil && sr.Status == 302 {
+				cu, _ := url.Parse(cb)
+				if r := e.do(reqSpec{Target: cu.RequestURI(), Cookie: b.cookieHeader()}); r.raw != nil {
+					b.apply(r.raw)
+				}
+			}
+			e.do(reqSpec{Target: "/oauth2/sign_out", Cookie: b.cookieHeader()})
+			c.casen("c18|samesite-spelling|"+ss, ss)
+			e.close()
+		}
 		c.close([]string{"c18:flow", "c18:set-cookie", "c18:refresh-reissue"})
 	})
 }
